@@ -12,7 +12,7 @@ INFO = {
                   'rtamt.semantics.stl.dense_time.online.intersection.intersection',
                   'offline dense-time evaluate() on the whole signal (the property\'s own oracle) and rho_ct'],
     'bounds': {'quick': 'every dense online operator, n=3 samples per signal (2+2 binary), EVERY split into consecutive update() batches (incl. per-variable '
-                        'unaligned splits for binary operators), time-stamps and values symbolic; bounds (0,1)(1,2); depth-2 nestings on n=3',
+                        'unaligned splits for binary operators), time-stamps and values symbolic; bounds (0,1)(1,2); depth-2 nestings on n=3; wide windows ([0,3],[1,4],[2,3]) over 5 samples on concrete regular and irregular time grids (values symbolic), 3 chunkings',
                'thorough': 'n=4 (3+2, 3+3 binary), all 2^(n-1) chunkings; more bounds; pastified bounded-future specifications'},
     'outside': 'more than 4 samples per variable; batches that repeat a time-stamp',
     'assumptions': ['time-stamps strictly increasing, first sample at time 0 (free start in thorough)', 'values finite reals',
@@ -72,7 +72,7 @@ def schedules(ns, aligned_only=False):
     return res
 
 
-def h_chunk(f, ns, sched, start='zero', pastify=False, oracle='both'):
+def h_chunk(f, ns, sched, start='zero', pastify=False, oracle='both', grid=None):
     f = T(f)
     vs = sorted(variables(f))
     op = f[0]
@@ -86,7 +86,7 @@ def h_chunk(f, ns, sched, start='zero', pastify=False, oracle='both'):
     def body(env):
         A = env.A
         son = ct.make_spec('online', 'out = ' + text(f), vs, pastify=pastify)
-        sigs = {v: ct.signal(env, v, n, start) for v, n in zip(vs, ns)}
+        sigs = {v: ct.signal(env, v, n, start, grid=grid) for v, n in zip(vs, ns)}
         outs = []
         U = len(sched[0])
         for u in range(U):
@@ -183,6 +183,31 @@ def obligations(tier, rng):
             for sched in schedules([n]):
                 out.append(ob('C05', 'chunk', 'Fpast/%s/n=%d/%s' % (text(f), n, _sname(sched)), f=f, ns=[n], sched=sched, pastify=True,
                               oracle='offline', max_paths=40000, wall=900))
+    # windows that span SEVERAL sampling steps: five/six samples on a concrete time grid (values symbolic), so that the window
+    # bookkeeping of the timed operators holds three or more segments at once
+    wide = [('once_t', X, 0, 3), ('historically_t', X, 0, 3), ('once_t', X, 1, 4), ('historically_t', X, 1, 4), ('historically_t', X, 2, 3),
+            ('once_t', X, 0, 2), ('or', ('historically_t', ('geq', X, ('const', 1.0)), 1, 4), ('not', X))]
+    widep = [('always_t', X, 0, 3), ('eventually_t', X, 0, 3), ('always_t', X, 1, 3)]
+    grids = [[0, 1, 2, 3, 4], [0, 1, 2, 3, 4, 5]] if not quick else [[0, 1, 2, 3, 4]]
+    grids_irr = [[0, 0.5, 2, 2.5, 4.5], [0, 2, 3, 3.5, 4, 7]]
+    for fam, fs, pst in (('wide', wide, False), ('widep', widep, True)):
+        for f in fs:
+            for g in grids + (grids_irr[:1] if quick else grids_irr):
+                n = len(g)
+                sch = schedules([n])
+                pick = [sch[0], sch[-1]] + ([sch[len(sch) // 3], sch[len(sch) // 2]] if not quick else [sch[5]])
+                if quick and f[0] == 'or':
+                    pick = pick[1:2] if g == grids[0] else []
+                for sched in pick:
+                    out.append(ob('C05', 'chunk', '%s/%s/grid=%s/%s' % (fam, text(f), ','.join(str(t) for t in g), _sname(sched)), f=f, ns=[n], sched=sched,
+                                  pastify=pst, oracle='offline', grid=g, max_paths=40000, wall=900))
+    widb = [('since_t', X, Y, 0, 3), ('since_t', X, Y, 1, 3)]
+    for f in ([] if quick else widb):
+        g = [0, 1, 2, 3]
+        sch = schedules([4, 4], aligned_only=True)
+        for sched in ([sch[0], sch[-1]] if quick else [sch[0], sch[-1], sch[len(sch) // 2]]):
+            out.append(ob('C05', 'chunk', 'wide/%s/grid=0,1,2,3/%s' % (text(f), _sname(sched)), f=f, ns=[4, 4], sched=sched, oracle='offline', grid=g,
+                          max_paths=40000, wall=900))
     res_ = out
     from .. import core as _core
     res_ = res_ + _core.make_twins(res_, [('F1/once[0,1](x)/n=3/0;1;2', 'ctwindow'), ('F1/(x) and (y)/n=[2, 2]/0,1|0,1', 'ctminmax'), ('F1/historically(x)/n=3/0,1;2', 'ctminmax')]) + _core.make_forkmode(res_, [])
